@@ -342,4 +342,31 @@ example : SCanon 64 ⟨true, .large [0, 0, 4]⟩ ∧ SCanon 64 ⟨true, .small (
     (ibigAnd 64 ⟨true, .large [0, 0, 4]⟩ ⟨true, .small (2 ^ 64 + 1)⟩).value 64 = -(2 ^ 130) := by
   refine ⟨by decide, by decide, by decide⟩
 
+-- ---------------------------------------------------------------- non-vacuity of the hypotheses
+-- a canonical negative 3-word value whose two low words are zero, shifted by more than its length,
+-- by exactly two words, and by a count inside the top word: floor division in both implementations
+example : SCanon 64 ⟨true, .large [0, 0, 5]⟩ ∧
+    ibigShr 64 true ⟨true, .large [0, 0, 5]⟩ 300 false = -1 ∧ ibigShr 64 true ⟨true, .large [0, 0, 5]⟩ 128 true = -5 ∧
+    ibigShr 64 true ⟨true, .large [0, 0, 5]⟩ 129 true = -3 := by
+  refine ⟨by decide, by decide, by decide, by decide⟩
+
+-- trailing ones across a word boundary (two full words of ones), and of the negative `-(2^130 + 1)`
+example : (TRepr.large [2 ^ 64 - 1, 2 ^ 64 - 1, 2]).Canon 64 ∧
+    (TRepr.large [2 ^ 64 - 1, 2 ^ 64 - 1, 2]).trailingOnes 64 true = .ok 128 ∧
+    (TRepr.large [1, 0, 4]).trailingOnesNeg 64 = .ok (some 130) := by
+  refine ⟨by decide, by decide, by decide⟩
+
+-- next_power_of_two spilling into a new top word; set_bit far above the top; clear_bit shrinking back
+example : (TRepr.large [1, 0, 2 ^ 63]).Canon 64 ∧
+    (TRepr.large [1, 0, 2 ^ 63]).nextPow2 64 = .large [0, 0, 0, 1] ∧
+    (TRepr.small 5).setBit 64 200 = .large [5, 0, 0, 256] ∧
+    (TRepr.large [5, 0, 0, 256]).clearBit 64 200 = .small 5 := by
+  refine ⟨by decide, by decide, by decide, by decide⟩
+
+-- primitive forms: `IBig(-3) & 0xffu8` through the conversion models, both operand orders
+example : PrimOk 64 8 ∧ SCanon 64 ⟨true, .small 3⟩ ∧
+    ibigAndPrimU 64 8 ⟨true, .small 3⟩ 0xff false = .ok 0xfd ∧ ibigAndPrimU 64 8 ⟨true, .small 3⟩ 0xff true = .ok 0xfd ∧
+    (ibigOpPrimS 64 8 .xor ⟨false, .large [0, 0, 1]⟩ (-128) false).value 64 = -(2 ^ 128 + 128) := by
+  refine ⟨⟨by decide, by decide, by decide, by decide, by decide⟩, by decide, by decide, by decide, by decide⟩
+
 end Dashu.Props.C09
